@@ -646,7 +646,7 @@ func main() {
 	fmt.Fprintf(&lb, "/-- cty/msgpack: an unknown-value extension body longer than this is rejected (`extLen > N`) -/\ndef msgpackMaxExtLen : Nat := %d\n", maxExt)
 	sl := parseDir(filepath.Join(*repo, "cty/function/stdlib"))
 	fmt.Fprintf(&lb, "/-- stdlib setproduct: per-argument and total length thresholds of the unknown-length refinement -/\ndef setproductArgMaxLen : Nat := %d\ndef setproductMaxLength : Nat := %d\n", cmpConst(sl, "argMaxLen", ">"), cmpConst(sl, "maxLength", ">"))
-	lb.WriteString(limitsExtra(*repo, mp)) // d17: jsonMaxImpliedTypeDepth, msgpackAllocHintMax (allocs.go)
+	lb.WriteString(limitsExtra(*repo, mp)) // d17: jsonImpliedTypeDepthLimit, msgpackAllocHintMax (allocs.go)
 	lb.WriteString("\nend CtyModel.Generated\n")
 	writeIfChanged(filepath.Join(*leanDir, "Limits.lean"), lb.String())
 	// d17: every make( call of the two wire decoders, with the provenance of its sizes (allocs.go)
